@@ -403,7 +403,9 @@ class TranslatorDriver:
     """CycleHarness driver.  Events are armed sequentially: event i is armed ``gap`` cycles after event i-1
     *fired* (tx: tx_valid raised; rx: DIR raised; ctl: inputs changed), so gap 0 gives same-cycle coincidences.
     After the last event the driver waits for ``quiet`` consecutive cycles in which the PHY is idle, no
-    transmission is pending and no input changed, then stops (or stops at ``cap`` cycles)."""
+    transmission is pending and no input changed, then stops (or stops at ``cap`` cycles).
+    A "tx" or "ctl" event carrying ``settle: 1`` additionally waits until no transmission is in progress and the
+    translator's ``busy`` has been low for 6 consecutive cycles (register writes caused by earlier changes done)."""
 
     def __init__(self, init_ctl, events, delays, quiet, cap, commit_on_dir_stp=False, settle=False):
         self.phy = UlpiPhy(delays, commit_on_dir_stp)
@@ -463,8 +465,9 @@ class TranslatorDriver:
                 upd["txd"] = 0
             else:
                 upd["txd"] = tx["bytes"][tx["pos"]]
-        if self.settle and self.armed_at is None and prev is not None:
+        if prev is not None:
             self.idle_run = 0 if prev.busy else self.idle_run + 1
+        if self.settle and self.armed_at is None and prev is not None:
             if self.idle_run >= 6:
                 self.armed_at = t
         # ---- fire armed events ----
@@ -474,6 +477,11 @@ class TranslatorDriver:
             if t < self.armed_at + ev["gap"]:
                 break
             k = ev["k"]
+            if ev.get("settle") and k in ("ctl", "tx") and \
+                    (self.tx is not None or t < self.tx_free_at or self.idle_run < 6):
+                # per-event settling (C23 mixed-mode cases): fire only when no transmission is in progress and the
+                # translator has not been busy for 6 cycles, i.e. earlier register writes / STP are over
+                break
             if k == "ctl":
                 if not self._sync_ok(ev.get("sync", 0)):
                     self.sync_wait += 1
@@ -487,6 +495,7 @@ class TranslatorDriver:
                     self.ctl = new
                     self.ctl_log.append((t, dict(new)))
                     self.ctl_sync_hits.append((t, STATE_NAMES[self.phy.state]))
+                    self.idle_run = -2             # the write this triggers shows on `busy` one..two cycles later
             elif k == "tx":
                 if self.tx is not None or t < self.tx_free_at:
                     break
